@@ -348,12 +348,16 @@ def persist_chain_system(rng, ncomp=None, name='ps', with_alpha=True, norms=Fals
                      'cost': (rng.choice([0.5, 1.0, 3.0]) if costs else None)})
         produced += outs
     variables = {}
+    grng0 = random.Random(rng.random()) if grid_opts else None
     for k in range(xcount):
         lo = rng.choice([-2, -1, 0, 1]); w = rng.choice([1, 2, 4])
         extra = {}
         if rng.random() < 0.5:          # legal "falsy" field values that must survive a save/load
             extra = {'nominal': 0.0 if lo <= 0 <= lo + w else float(lo), 'description': '', 'units': ''}
-        variables[f'x{k}'] = Variable(f'x{k}', distribution=f'U({lo}, {lo + w})',
+        dist = f'U({lo}, {lo + w})'
+        if grid_opts and grng0.random() < 0.35:      # distributions whose text form carries a third argument (log base) that a save must keep
+            dist = grng0.choice(['LogUniform(0.5, 4, 2)', 'LogNormal(0, 0.25, 2)', 'LU(1, 8, base=3)'])
+        variables[f'x{k}'] = Variable(f'x{k}', distribution=dist,
                                       norm=(rng.choice([None, 'linear(0.5, 1)', 'zscore(1, 2)']) if norms else None), **extra)
     for s in spec:
         for o in s['outputs']:
